@@ -90,7 +90,7 @@ PROPS = {
                 "cause added or removed). Non-trivial = some perturbed (near-equal) reference does not match, or a non-comparable value is involved. "
                 "Distinct = hash of the case JSON.",
         "assumptions": ["%T type name + extension identifies a type mark for locally built errors"],
-        "parts": [rapid("is-model", "TestProp", 12000, 240000)],
+        "parts": [rapid("is-model", "TestProp", 12000, 120000)],
     },
     "C02": {
         "pkg": "c02",
@@ -122,7 +122,7 @@ PROPS = {
                 "families unknown, only the multi-cause families unknown}. Non-trivial = at least one multi-cause node and at least 4 visible layers. Part join-nils "
                 "enumerates Join/JoinWithDepth with 0-6 nil arguments exhaustively. Distinct = hash of the case JSON.",
         "assumptions": ["the C08 mark model for the self-match of a multi-cause node"],
-        "parts": [rapid("multi-tree", "TestProp", 6000, 100000), plain("join-nils", "TestJoinNils")],
+        "parts": [rapid("multi-tree", "TestProp", 6000, 48000), plain("join-nils", "TestJoinNils")],
     },
     "C14": {
         "pkg": "c14",
@@ -238,7 +238,7 @@ PROPS = {
                 "full-message / leaf). Part nil-grid: all 71 wrapper constructors x nil and 20 leaf constructors, exhaustive, completeness-checked. "
                 "Distinct = hash of the case JSON.",
         "assumptions": ["the model's reading of the documentation (Appendix A of DESIGN.md)"],
-        "parts": [rapid("compose", "TestProp", 16000, 320000), plain("nil-grid", "TestNilGrid")],
+        "parts": [rapid("compose", "TestProp", 16000, 160000), plain("nil-grid", "TestNilGrid")],
     },
     "C16": {
         "pkg": "c16",
@@ -375,7 +375,7 @@ PROPS = {
         "rule": "rapid-generated trees (boosted: barriers, tags, secondary errors, Mark, Join, safe details, stacks, domains), local or decoded; 8 goroutines x 2 "
                 "rounds per tree. Non-trivial = at least 3 spec nodes; for the history part = at least 2 other errors handled in between. Distinct = hash of the case JSON.",
         "assumptions": ["Go race detector semantics (happens-before based, reports races that occur)"],
-        "parts": [rapid("concurrent-readers", "TestProp", 480, 9600), rapid("history-independence", "TestHistory", 640, 12800)],
+        "parts": [rapid("concurrent-readers", "TestProp", 480, 4800), rapid("history-independence", "TestHistory", 640, 6400)],
         "timeout": {"quick": 900, "thorough": 7200},
     },
 }
